@@ -178,6 +178,125 @@ func (r *vwRun) decodeUnits(tier string, bases []vwEnc) []vwUnit {
 			vwCheckDecode("sampleid", "json", []byte(s), acc)
 		}
 	}})
+	units = append(units, r.jsonIntUnits(bases)...)
+	return units
+}
+
+// vwJSONIntValues: the integer values written as JSON numbers (the whole index sweep plus 32/64-bit
+// boundaries and values that overflow int64/uint64), and a few other notations of boundary values.
+func vwJSONIntValues() (sweep []string, notations []string) {
+	for i := -2; i <= 65538; i++ {
+		sweep = append(sweep, fmt.Sprint(i))
+	}
+	for _, x := range vwBigInts() {
+		sweep = append(sweep, fmt.Sprint(x))
+	}
+	sweep = append(sweep, "4294967296", "18446744073709551615", "18446744073709551616", "9223372036854775808", "-9223372036854775809", "-0")
+	notations = []string{"3.0", "-2.0", "-1.0", "65535.0", "65536.0", "0.5", "-0.5", "1e3", "1E5", "1e19", "1e400", "-1e400", "1e-400", "7e0",
+		`"3"`, `"-2"`, `"65536"`, `""`, "true", "null", "[3]", `{"x":3}`}
+	return sweep, notations
+}
+
+// jsonIntUnits: every JSON decoder that has an integer field gets the index sweep -2..65538, the 32/64-bit
+// boundaries, overflowing values and other notations for EACH integer field, the other fields at boundary values.
+func (r *vwRun) jsonIntUnits(bases []vwEnc) []vwUnit {
+	var units []vwUnit
+	sweep, notations := vwJSONIntValues()
+	all := append(append([]string(nil), sweep...), notations...)
+	type tmpl struct {
+		kind   string
+		format string // three %s: the swept field gets the value, the others come from `others`
+		fields int
+		others [][]string
+	}
+	tmpls := []tmpl{
+		{"sampleid", `{"height":%s,"row_index":%s,"share_index":%s}`, 3,
+			[][]string{{"7", "3", "5"}, {"1", "0", "0"}, {"18446744073709551615", "65535", "65535"}, {"7", "-1", "65536"}, {"0", "1023", "-2"}}},
+		{"samplecoords", `{"row":%s,"col":%s}`, 2, [][]string{{"3", "5"}, {"0", "0"}, {"-1", "1023"}, {"65536", "-2"}}},
+	}
+	for _, t := range tmpls {
+		for fi := 0; fi < t.fields; fi++ {
+			t, fi := t, fi
+			units = append(units, vwUnit{fmt.Sprintf("decode/%s/json-int-sweep/field%d", vwDecoderName(t.kind, "json"), fi), func(acc *vwAcc) {
+				n := 0
+				for _, o := range t.others {
+					for _, v := range all {
+						args := make([]any, t.fields)
+						for i := range args {
+							args[i] = o[i]
+						}
+						args[fi] = v
+						vwCheckDecode(t.kind, "json", []byte(fmt.Sprintf(t.format, args...)), acc)
+						n++
+					}
+					if r.expired() {
+						return
+					}
+				}
+				acc.s("decode_bounds", "json_int_sweep_inputs/"+t.kind, int64(n))
+			}})
+		}
+	}
+	// containers: the integer fields of a Sample document (proof_type, proof.start, proof.end), one base per proof axis
+	seen := map[string]bool{}
+	for _, b := range bases {
+		if b.c.kind != "sample" || b.form != "json" || seen[b.c.shape[:13]] {
+			continue
+		}
+		seen[b.c.shape[:13]] = true
+		b := b
+		units = append(units, vwUnit{fmt.Sprintf("decode/Sample.UnmarshalJSON/json-int-sweep/%s%v", b.c.sq.name, b.c.params), func(acc *vwAcc) {
+			var doc map[string]json.RawMessage
+			if err := json.Unmarshal(b.enc, &doc); err != nil {
+				panic(err)
+			}
+			var proof map[string]json.RawMessage
+			if err := json.Unmarshal(doc["proof"], &proof); err != nil {
+				panic(err)
+			}
+			vals := append(append([]string(nil), notations...), "-2", "-1", "0", "1", "2", "3", "255", "256", "65535", "65536",
+				"2147483647", "2147483648", "4294967295", "4294967296", "4294967297", "-2147483648", "-2147483649", "-4294967296",
+				"9223372036854775807", "9223372036854775808", "-9223372036854775808", "18446744073709551616")
+			for i := 4; i <= 1100; i++ {
+				vals = append(vals, fmt.Sprint(i))
+			}
+			n := 0
+			emit := func(top map[string]json.RawMessage) {
+				m, err := json.Marshal(top)
+				if err != nil {
+					return // not expressible as a document (e.g. 1e400 is, `[3]` is; invalid raw is skipped)
+				}
+				vwCheckDecode("sample", "json", m, acc)
+				n++
+			}
+			for _, v := range vals {
+				top := map[string]json.RawMessage{}
+				for k, x := range doc {
+					top[k] = x
+				}
+				top["proof_type"] = json.RawMessage(v)
+				emit(top)
+				for _, pf := range []string{"start", "end"} {
+					pm := map[string]json.RawMessage{}
+					for k, x := range proof {
+						pm[k] = x
+					}
+					pm[pf] = json.RawMessage(v)
+					pj, err := json.Marshal(pm)
+					if err != nil {
+						continue
+					}
+					top = map[string]json.RawMessage{}
+					for k, x := range doc {
+						top[k] = x
+					}
+					top["proof"] = pj
+					emit(top)
+				}
+			}
+			acc.s("decode_bounds", "json_int_sweep_inputs/sample", int64(n))
+		}})
+	}
 	return units
 }
 
@@ -285,7 +404,8 @@ func TestVerifC18(t *testing.T) {
 		"(inclusion and absence), namespace data and range (0-2 partial-row proofs) that the package's own constructors build from the listed squares, through protobuf, length-delimited stream and JSON. " +
 		"(4) op=decode: every single-byte operator result (truncation to every length; substitution by 00,01,7f,80,ff,b^1,b+1,b-1; deletion; insertion of 00,01,7f,80,ff) on the picked valid encodings, " +
 		"crafted protobuf messages (absent sub-messages, out-of-range enums, share lengths 0,1,28,29,511,513,1024, proof bounds at int64 limits), JSON documents with every node deleted / replaced by every " +
-		"alphabet value, every valid encoding fed to every other decoder, every byte string of length <= 2 (thorough: 3). " +
+		"alphabet value, every valid encoding fed to every other decoder, every byte string of length <= 2 (thorough: 3); every JSON decoder with integer fields (SampleID, SampleCoords, Sample) gets, per field, every value -2..65538, " +
+		"32/64-bit boundaries, int64/uint64 overflows and float/string/exponent notations, and an accepted value must be in range by the harness's own test and re-encode (binary/protobuf and JSON) to something that decodes equal. " +
 		"A case is counted in distinct_nontrivial when it is distinct by construction (mutants are de-duplicated by content hash per base) and non-trivial: an identifier tuple the constructor accepted (so codecs ran), " +
 		"a decoder input that is not rejected by the length check alone, a generated container, or a decoder input that was accepted or made the decoder panic. states = distinct values / byte strings the codecs were " +
 		"exercised at; transitions = constructor / encode / decode / verify calls executed on the implementation."
